@@ -11,32 +11,11 @@ def vectors(chk, module, cases, cfgs, props, invariants, workers=8, timeout=1800
         run = "%s.%s.%s.%s" % (chk.prop, module, cases, cfg)
         r = run_scenario(module, cfg, cases, invariants, workers=workers, timeout=timeout, run=run)
         chk.add_tlc(r)
-        with open(r["vec_path"]) as f:
-            first = f.readline()
-            if first:
-                v = json.loads(first); v["cfg"] = cfg
-                chk.sample(v)
-        summary, recs = replay(cfg, r["vec_path"], run, props=props)
-        if summary.get("aborted"):
-            # find the vector at which the process died
-            s2, all_recs = replay(cfg, r["vec_path"], run + ".full", full=True, props=props)
-            answered = len(all_recs)
-            lines = open(r["vec_path"]).read().splitlines()
-            culprit = json.loads(lines[min(answered, len(lines) - 1)])
-            chk.violation({"cfg": cfg, "vector": culprit, "outcome": "abort", "stderr": summary.get("stderr", "")},
-                          "the process aborted while handling this vector")
-            continue
-        chk.replayed += summary.get("compared", 0)
-        if summary.get("hang_at") is not None:
-            for rec in recs:
-                if rec.get("outcome") == "hang":
-                    rec["cfg"] = cfg
-                    chk.violation(rec, "call did not return within 20 s")
-        bad = [x for x in recs if x.get("outcome") in ("panic",) or x.get("match") is False]
-        adjudicate(chk, cfg, bad, run)
+        judge_vectors(chk, cfg, r, run, props)
 
 
 def adjudicate(chk, cfg, bad, run):
+    bad = [x for x in bad if not x.get("summary")]
     if not bad:
         return
     for i, x in enumerate(bad):
@@ -81,6 +60,10 @@ def replay_one(prop, path):
     vp = os.path.join(WORK, "tlc", "replay1.vec")
     open(vp, "w").write(json.dumps(vec) + "\n")
     summary, recs = replay(cfg, vp, "replay1", full=True)
+    if summary.get("aborted"):
+        print("the process aborted while handling the vector: " + summary.get("stderr", "")[-300:])
+        print("VIOLATION property=%s replay=%s" % (prop, path))
+        return 1
     for i, x in enumerate(recs):
         x["line"] = i
     verdicts, _ = validate(cfg, recs, "replay1.adj")
@@ -144,7 +127,37 @@ def judge_vectors(chk, cfg, r, run, props):
             v = json.loads(first); v["cfg"] = cfg
             chk.sample(v)
     summary, recs = replay(cfg, r["vec_path"], run, props=props)
+    if summary.get("aborted"):
+        # the code under test killed the process (abort, stack overflow, non-unwinding panic such as a
+        # violated unsafe precondition): find the vector at which it died, report it, and go on
+        # with the vectors after it
+        lines = open(r["vec_path"]).read().splitlines()
+        start, guard = 0, 0
+        while guard < 25:
+            guard += 1
+            part = os.path.join(WORK, "tlc", run + ".part.vec")
+            open(part, "w").write("\n".join(lines[start:]) + "\n")
+            s2, all_recs = replay(cfg, part, run + ".part", full=True, props=props)
+            answered = len(all_recs)
+            bad = [x for x in all_recs if x.get("outcome") in ("panic", "hang") or x.get("match") is False]
+            chk.replayed += len([x for x in all_recs if "match" in x])
+            adjudicate(chk, cfg, bad, run + ".p%d" % guard)
+            if not s2.get("aborted"):
+                break
+            culprit = json.loads(lines[start + answered])
+            culprit["props"] = props
+            chk.violation({"cfg": cfg, "vector": culprit, "outcome": "abort", "stderr": s2.get("stderr", "")[-800:]},
+                          "the process ABORTED while handling this vector (%s): %s" % (culprit.get("tag"), s2.get("stderr", "")[-300:]))
+            start = start + answered + 1
+            if start >= len(lines):
+                break
+        return
     chk.replayed += summary.get("compared", 0)
+    if summary.get("hang_at") is not None:
+        for rec in recs:
+            if rec.get("outcome") == "hang":
+                rec["cfg"] = cfg
+                chk.violation(rec, "call did not return within 20 s")
     bad = [x for x in recs if x.get("outcome") in ("panic", "hang") or x.get("match") is False]
     adjudicate(chk, cfg, bad, run)
 
@@ -348,9 +361,21 @@ def drive_and_validate(chk, cfg, driver, n, seed, props_by_op, run, shards=4):
     binp = build(cfg)
     out = os.path.join(WORK, "tlc", run + ".events.ndjson")
     r = sh([binp, "drive", driver, str(seed), str(n), out])
-    if r.returncode != 0:
+    aborted = r.returncode < 0 or r.returncode in (134, 139)
+    if r.returncode != 0 and not aborted:
         raise ToolError("driver %s failed: %s" % (driver, r.stdout[-2000:]))
-    events = [json.loads(l) for l in open(out)]
+    events = []
+    for l in open(out):
+        try:
+            events.append(json.loads(l))
+        except ValueError:
+            pass      # a line cut short by the abort
+    if aborted:
+        pend = out + ".pending"
+        culprit = json.load(open(pend)) if os.path.exists(pend) else {}
+        culprit["props"] = props_by_op.get(culprit.get("op"), [])
+        chk.violation({"cfg": cfg, "vector": culprit, "outcome": "abort", "stderr": r.stdout[-800:]},
+                      "the process ABORTED while the driver ran this input: %s" % r.stdout[-300:])
     for e in events:
         e["cfg"] = cfg
         e["in"]["props"] = props_by_op.get(e["op"], [])
@@ -424,6 +449,11 @@ def sweep_prefix(chk, cfg, table, depth, run):
     binp = build(cfg)
     out = os.path.join(WORK, "tlc", run + ".sweep.out")
     r = sh([binp, "sweep", "prefix", table, str(depth), "16", out])
+    if r.returncode < 0 or r.returncode in (134, 139):
+        chk.violation({"cfg": cfg, "vector": {"op": "sweep", "table": table, "depth": depth}, "outcome": "abort",
+                       "stderr": r.stdout[-800:]},
+                      "the process ABORTED during the whole-space sweep: %s" % r.stdout[-300:])
+        return {"checked": 0, "table": 0, "unspec": 0}
     if r.returncode != 0:
         raise ToolError("sweep failed: rc=%s %s" % (r.returncode, r.stdout[-2000:]))
     recs = [json.loads(l) for l in open(out)]
